@@ -9,7 +9,7 @@ HERE = os.path.dirname(os.path.dirname(os.path.abspath(__file__)))
 # id -> (level category, level text, level note, technique)   (only built checks)
 CHECKS = {
     'C12': ('exploration',
-            'bounded exhaustive enumeration: every text over {a,space,LF,CR} up to length 7 (quick) / 9 (thorough) x every offset x three position implementations against an independent splitter; parseinfo spans over a named-rule grammar corpus against the reference evaluator',
+            'bounded exhaustive enumeration: every text over {a,space,LF,CR} up to length 7 (quick) / 9 (thorough) x every offset x three position implementations against an independent splitter; parseinfo spans over a named-rule grammar corpus against the reference evaluator; (c) parse information of every model node over the type-annotated templates (rule of the class; the span re-parses from that rule to the same node)',
             'trusted: the independent splitter and the reference evaluator; alphabet limited to LF/CR/CRLF line breaks',
             'exhaustive bounded enumeration of inputs x offsets against a reference model'),
 }
